@@ -337,6 +337,9 @@ class World:
             conn.set_hold(False)
         elif kind == 'clock_jump':
             self.clock.now += float(fault.get('dt', 1.0))
+        elif kind == 'extlock':
+            self.ext_lock(fault.get('mailbox', 'INBOX'), fault.get('user'),
+                          float(fault.get('hold', 0.1)))
         elif kind == 'deliver':
             self.deliver(fault['data'], fault.get('mailbox', 'INBOX'),
                          fault.get('user'), fault.get('subdir', 'new'),
@@ -345,6 +348,45 @@ class World:
             raise HarnessError('unknown fault kind %r' % kind)
 
     # ---- the delivery agent (maildir only) ----------------------------------
+
+    def _folder(self, mailbox: str, user: str | None):
+        name = user or self.users[0]['name']
+        rec = next((u for u in self.users if u['name'] == name), None)
+        if rec is None or self.fs is None:
+            return None
+        home = os.path.join(self.scratch, 'base',
+                            rec.get('mailbox_path', name))
+        if mailbox.upper() == 'INBOX':
+            return home
+        if self.cfg.get('layout', '++') == '++':
+            return os.path.join(home, '.' + mailbox)
+        return os.path.join(home, mailbox)
+
+    def ext_lock(self, mailbox: str = 'INBOX', user: str | None = None,
+                 hold: float = 0.1,
+                 name: str = 'dovecot-uidlist.lock') -> bool:
+        """Another process (a second server, dovecot) takes the folder's
+        lock file and keeps it for *hold* virtual seconds.  Sessions that
+        need it poll with growing delays, so whoever polls first after the
+        release goes first: the window between a session's message-file
+        write and its UID-list update gets as long as a whole command of
+        another session."""
+        folder = self._folder(mailbox, user)
+        if folder is None or not os.path.isdir(folder):
+            return False
+        path = os.path.join(folder, name)
+        if os.path.exists(path):
+            return False
+        with self.fs.open(path, 'w'):
+            pass
+        self.log('extlock', mailbox, round(hold, 3))
+
+        def release() -> None:
+            if os.path.exists(path):
+                self.fs.os.remove(path)
+            self.log('extlock-release', mailbox)
+        self.loop.call_later(hold, release)
+        return True
 
     def deliver(self, data: str, mailbox: str = 'INBOX',
                 user: str | None = None, subdir: str = 'new',
